@@ -283,6 +283,11 @@ fn compare_point<PD: SWCurveConfig, PR: SWCurveConfig>(class: &str, case: &Value
     if a != b {
         return Some(mkv("crafted point: deserialize_uncompressed_unchecked", case.clone(), format!("{:?}", b.map(hex::encode)), format!("{:?}", a.map(hex::encode))));
     }
+    let a = GDa::<PD>::deserialize_uncompressed(&ru[..]).ok().map(|x| ser_c(&x));
+    let b = GDa::<PR>::deserialize_uncompressed(&ru[..]).ok().map(|x| ser_c(&x));
+    if a != b {
+        return Some(mkv("crafted point: deserialize_uncompressed (validated)", case.clone(), format!("accepts: {}", b.is_some()), format!("accepts: {}", a.is_some())));
+    }
     let a = GDa::<PD>::deserialize_compressed(&rc[..]).ok().map(|x| ser_u(&x));
     let b = GDa::<PR>::deserialize_compressed(&rc[..]).ok().map(|x| ser_u(&x));
     if a != b {
